@@ -39,8 +39,9 @@ def lib():
 # ---------------------------------------------------------------------------
 # kind 'data'
 
-def zstream(payload, level, splits):
-    c = zlib.compressobj(level)
+def zstream(payload, level, splits, wbits=15):
+    # any window size a default inflater reads (2^9..2^15; the first byte of the stream is 0x78 only for the largest)
+    c = zlib.compressobj(level, zlib.DEFLATED, wbits)
     out = b''
     pos = 0
     for sp in sorted(set(s for s in splits if 0 < s < len(payload))):
@@ -65,7 +66,7 @@ def run_data(ctx, case):
             if isinstance(payload, list):
                 # ['run', n, head]: head + n zero bytes (kept symbolic so that the case stays small): near-maximal deflate expansion
                 payload = bytes(payload[2]) + bytes(payload[1])
-            stream = zstream(payload, s.pop('level'), s.pop('splits', []))
+            stream = zstream(payload, s.pop('level'), s.pop('splits', []), s.pop('wbits', 15))
             variant = s.pop('variant', 'ok')
             ch_type = 1
             ch_size = len(payload)
@@ -292,7 +293,7 @@ def build_data(ch, tier):
             # nothing to do with the entry size; the logical size comes from the compression header)
             ztype, zent = ch.choice([(1, 0), (1, 0), (1, 0), (9, 8 if cls == 32 else 16), (4, 12 if cls == 32 else 24), (19, cls // 8), (7, 0), (14, cls // 8)])
             s = {'ck': 'z', 'name': ch.choice(['.debug_info', '.debug_str', '.zz%d' % len(secs)]), 'sh_type': ztype, 'sh_entsize': zent, 'sh_flags': ch.choice([0, 0, 0x30]),
-                 'payload': payload, 'level': ch.int(0, 9), 'splits': [ch.int(0, max(plen, 1)) for _ in range(ch.int(0, 3))],
+                 'payload': payload, 'level': ch.int(0, 9), 'wbits': ch.choice([15, 15, 15, 9, 11, 14]), 'splits': [ch.int(0, max(plen, 1)) for _ in range(ch.int(0, 3))],
                  'ch_addralign': ch.choice([0, 1, 4, 8, 1 << 20, (1 << cls) - 1]), 'sh_addralign': ch.choice([1, 4, 8]),
                  'ch_reserved': ch.choice([0, 0, 0xdeadbeef])}
             v = ch.int(0, 9)
@@ -796,7 +797,7 @@ def sweep(tier):
                 secs = [{'name': '', 'sh_type': 0},
                         {'ck': 'raw', 'name': '.r', 'sh_type': 1, 'sh_addralign': 4, 'data': payload},
                         {'ck': 'nobits', 'name': '.bss', 'sh_flags': 3, 'sh_addralign': 8, 'size_override': size},
-                        {'ck': 'z', 'name': '.debug_x', 'sh_type': 1, 'payload': payload, 'level': k % 10, 'splits': [size // 2],
+                        {'ck': 'z', 'name': '.debug_x', 'sh_type': 1, 'payload': payload, 'level': k % 10, 'wbits': (15, 9, 12)[k % 3], 'splits': [size // 2],
                          'ch_addralign': 1 << (k % 7), 'sh_addralign': 1},
                         {'ck': 'str', 'name': '.st', 'sh_type': 3, 'data': b'\0' + utf8_string(ch, size) + b'\0', 'queries': [0, 1]},
                         {'name': '.shstrtab', 'sh_type': 3, 'data': b''}]
